@@ -7,7 +7,7 @@ Import ListNotations.
 Open Scope res_scope.
 
 Ltac shape_crush :=
-  intros; unfold bindM, lens_Put, lens_Get, retM;
+  intros; repeat autounfold with golem_helpers; unfold bindM, lens_Put, lens_Get, retM;
   repeat (match goal with
           | |- context [oput ?o ?m ?s ?x] => destruct (oput o m s x); cbn [bind]; try reflexivity
           | |- context [oget ?o ?m ?s] => destruct (oget o m s); cbn [bind]; try reflexivity
